@@ -136,7 +136,82 @@ def scen(w, nlines=2, quick=0):
             "prefix=%d file=%r" % (prefix, file_lines))
 
 
-SCENARIOS = {"file": scen}
+ARC_LINES = ["G2 X2 Y0 I1 J0 E0.5", "G3 X0.2 Y0.2 I0 J0.2 E0.5", "G2 X0.2 Y0 I0.1 J0", "G3 X0 Y0 I0.25 J0 E1"]
+
+
+def scen_arc(w):
+    """(wrapper) the arc's numbers are concrete: run the trigonometry of planArc in CPython floats on both sides instead
+    of through the symbolic-pi contracts (which hand every call fresh, merely constrained values)."""
+    if not w.symbolic:
+        return _scen_arc(w)
+    from symx import shims
+    old = shims.SYMBOLIC_PI
+    shims.SYMBOLIC_PI = False
+    try:
+        return _scen_arc(w)
+    finally:
+        shims.SYMBOLIC_PI = old
+
+
+def _scen_arc(w):
+    """Arcs through the REAL planArc on both sides (no stub): the arc's numbers are concrete (so the trigonometry runs
+    in floats), the region, the units prefix and the following move are symbolic.  The live side is a plugin that
+    processed the same prefix through its hooks; the stream side is a StreamProcessor created from the live handlers."""
+    ext = [{"gcode": "M204", "mode": "merge", "description": ""}]
+    inch = w.flag("live-in-inches")
+    w.cover("live-inch" if inch else "live-mm")
+    spec = pl.fresh_region(w, "rect", "r0")
+    plugins = []
+    for tag in ("L", "T"):
+        plugin = pu.make_plugin(w, extended=ext)
+        pu.fire(plugin, "PRINT_STARTED")
+        pipe = pl.Pipe(w, plugin=plugin, track_p=False, arc_stub=False)
+        pipe.add_region(spec)
+        plugin.handleGcodeQueuing(None, "queuing", "G28", None, "G28")
+        if inch:
+            plugin.handleGcodeQueuing(None, "queuing", "G20", None, "G20")
+        plugins.append(plugin)
+    L, T = plugins
+    # the tool starts at the home position (0, 0): keep it outside the region so that no episode is open yet
+    w.assume(alg.not_(spec.contains(w, 0, 0)))
+    SP = w.env.mod("StreamProcessor").StreamProcessor
+    proc = SP(io.BytesIO(b""), L.gcodeHandlers)
+    live_before = snapshot(L.state)
+    arc = ARC_LINES[w.choose(len(ARC_LINES), "arc")]
+    w.cover("arc-%d" % ARC_LINES.index(arc))
+    follow, _ = pl.render(w, S("G1", "X# Y# E#"), 700)
+    file_lines = []
+    from oracles import rs274
+    for cmd in (arc, follow):
+        line = cmd + "\n"
+        file_lines.append(line)
+        w.note("program", [repr(x) for x in file_lines])
+        try:
+            out = proc.process_line(line)
+        except Exception as ex:
+            w.fail("stream-raises", "file %r: %r" % (file_lines, ex))
+            return
+        c = rs274.read(cmd)
+        tres = T.handleGcodeQueuing(None, "queuing", cmd, None, c.code, None)
+        desc = "inch=%s file=%r -> stream %r ; live hook %r" % (inch, file_lines, out, tres)
+        which = "arc" if cmd is arc else "follow"
+        if tres is None:
+            ok = (out == line)
+            w.cover(which + "-forwarded")
+        elif tres == (None,):
+            ok = out is None
+            w.cover(which + "-excluded")
+        else:
+            ok = isinstance(out, str) and out.endswith("\n")
+            if ok:
+                ok = same_result(w, out[:-1].split("\n"), list(tres))
+            w.cover(which + ("-forwarded" if list(tres) == [cmd] else "-rewritten"))
+        if not w.check(ok, "stream-equals-live-hook", desc):
+            return
+    w.check(same_data(live_before, snapshot(L.state)), "live-state-untouched", "file=%r" % (file_lines,))
+
+
+SCENARIOS = {"file": scen, "arc-file": scen_arc}
 
 META = {
     "assumptions": ["process_line is driven directly with text lines (OctoPrint's LineProcessorStream byte handling is not "
@@ -153,4 +228,10 @@ def plan(tier):
     cov = ["prefix-0", "prefix-1", "prefix-2", "live-continued"] + ["line-" + (x if isinstance(x, str) else x.tag)
                                                     for x in (LINES_QUICK if q else LINES)]
     return [Scenario("file", scen, params={"nlines": n, "quick": q}, cover=cov, bounds={"lines": n, "line templates": len(LINES),
-                                                                          "decorations": 4, "eol styles": 2})]
+                                                                          "decorations": 4, "eol styles": 2}),
+            Scenario("arc-file", scen_arc, params={},
+                     cover=["live-inch", "live-mm", "arc-0", "arc-1", "arc-2", "arc-3", "arc-forwarded", "arc-excluded",
+                            "follow-forwarded", "follow-excluded", "follow-rewritten"],
+                     bounds={"lines": 2, "arc": "one of %d concrete arcs through the real planArc, then one G1 with "
+                                                "symbolic numbers" % len(ARC_LINES), "regions": "1 symbolic rectangle",
+                             "live prefix": "G28, optionally G20, through the live hooks"})]
